@@ -1,5 +1,5 @@
 //@file anchor=lora-phy/src/lib.rs
-// Environment models for lora-phy harnesses (DESIGN 2.4): sequential SPI log, interface variant,
+// Environment models for lora-phy harnesses (DESIGN 2.4): sequential SPI.v log, interface variant,
 // delay, one-poll executor.
 use super::*;
 use core::future::Future;
@@ -7,11 +7,21 @@ use core::pin::pin;
 use core::task::{Context, Poll, Waker};
 use embedded_hal_async::spi::{ErrorType, Operation, SpiDevice};
 
+/// Every harness static carries a unique tag: Kani resolves a *constant* whose bytes equal a
+/// static's initial bytes to that static (rustc interns allocations by content), so writing to a
+/// `static mut FLAG: bool = false` silently changed constants such as `DR::_0` in the code under
+/// test (found on macs_r0_linkadr2, see DESIGN 9.4).  Unique initial content rules this out.
+#[repr(C)]
+pub(crate) struct Uq<T> {
+    pub magic: u64,
+    pub v: T,
+}
+
 pub(crate) const MAXT: usize = 24; // transactions recorded
 pub(crate) const MAXW: usize = 10; // bytes recorded per Write operation (head)
 pub(crate) const MAXRB: usize = 12; // bytes answered per transaction from the script
 
-/// One SPI transaction.  Everything is stored at positions that depend only on the operation
+/// One SPI.v transaction.  Everything is stored at positions that depend only on the operation
 /// index, never on (possibly non-constant) lengths: lengths lose their constness on the way
 /// through `Operation<'_, u8>` slices and would turn every later index into a symbolic one.
 #[derive(Clone, Copy)]
@@ -38,7 +48,7 @@ impl embedded_hal_async::spi::Error for SpiErr {
     }
 }
 
-/// Sequential SPI model: records what is written per transaction, answers the reads of
+/// Sequential SPI.v model: records what is written per transaction, answers the reads of
 /// transaction k from row k of a script of arbitrary bytes, fails at transaction `fail_at`.
 /// The log lives in a plain `static mut` (DESIGN R4): a by-value log inside the driver struct is
 /// moved (memcpy'd) several times on construction, which made one register write cost 140k
@@ -57,12 +67,12 @@ pub(crate) struct SpiLog {
     pub big_len: usize,
     pub big_row: usize,
 }
-pub(crate) static mut SPI: SpiLog = SpiLog { t: [TX0; MAXT], n: 0, script: [[0; MAXRB]; MAXT], fail_at: usize::MAX, probe: 0,
-    big_j: 0, big_v: 0, big_len: usize::MAX, big_row: usize::MAX };
+pub(crate) static mut SPI: Uq<SpiLog> = Uq { magic: 0x6C727600DFEC66E3, v: SpiLog { t: [TX0; MAXT], n: 0, script: [[0; MAXRB]; MAXT], fail_at: usize::MAX, probe: 0,
+    big_j: 0, big_v: 0, big_len: usize::MAX, big_row: usize::MAX } };
 
-/// the log of the (single) mock SPI device
+/// the log of the (single) mock SPI.v device
 pub(crate) fn spi() -> &'static mut SpiLog {
-    unsafe { &mut *core::ptr::addr_of_mut!(SPI) }
+    unsafe { &mut *core::ptr::addr_of_mut!(SPI.v) }
 }
 
 /// transaction `i` of the log, selected with constant indices (a symbolic index into the array of
@@ -79,6 +89,48 @@ pub(crate) fn script_at(row: usize, col: usize) -> u8 {
     macro_rules! sel { ($($k:expr),*) => { $( if row == $k { return l.script[$k][col % MAXRB]; } )* }; }
     sel!(0, 1, 2, 3, 4, 5, 6, 7, 8, 9, 10, 11, 12, 13, 14, 15, 16, 17, 18, 19, 20, 21, 22, 23);
     0
+}
+
+/// total number of bytes clocked in transaction `t` (written + read)
+pub(crate) fn wire_len(t: &Tx) -> usize {
+    t.wlen + t.plen + t.rlen
+}
+/// MOSI byte at wire position `q` of transaction `t` (C13): the bytes of the first Write, then
+/// those of the second Write (payload), then 0x00 while the device reads (a written NOP and a
+/// clocked read byte are the same byte on the wire)
+pub(crate) fn mosi(t: &Tx, q: usize) -> u8 {
+    kani::assert(t.wlen <= MAXW && q < MAXW + MAXW, "mock: mosi() looks beyond the recorded head");
+    if q < t.wlen {
+        t.w[q % MAXW]
+    } else if q < t.wlen + t.plen {
+        t.p[(q - t.wlen) % MAXW]
+    } else {
+        0
+    }
+}
+
+/// Uninterpreted stand-ins for the PLL-word conversions (C13 framing harnesses): the first call
+/// fixes an arbitrary result for its argument, later calls with the same argument return it.
+pub(crate) static mut UF_PLL: Uq<(bool, u32, u32)> = Uq { magic: 0x6C727600CD6F7F38, v: (false, 0, 0) };
+fn uf_pll(f: u32) -> u32 {
+    unsafe {
+        let u = &mut *core::ptr::addr_of_mut!(UF_PLL.v);
+        if u.0 && u.1 == f {
+            u.2
+        } else {
+            *u = (true, f, kani::any());
+            u.2
+        }
+    }
+}
+pub(crate) fn uf_reset() {
+    unsafe { UF_PLL.v = (false, 0, 0); }
+}
+pub(crate) fn uf_pll126<SPI.v, IV.v, C>(f: u32) -> u32 {
+    uf_pll(f)
+}
+pub(crate) fn uf_pll127(f: u32) -> u32 {
+    uf_pll(f)
 }
 
 pub(crate) struct MockSpi;
@@ -188,9 +240,9 @@ pub(crate) struct IvLog {
     pub tx_switch: usize,
     pub switch_off: usize,
 }
-pub(crate) static mut IV: IvLog = IvLog { calls: 0, fail_at: usize::MAX, busy_waits: 0, irq_waits: 0, resets: 0, rx_switch: 0, tx_switch: 0, switch_off: 0 };
+pub(crate) static mut IV: Uq<IvLog> = Uq { magic: 0x6C727600DAAD0F2D, v: IvLog { calls: 0, fail_at: usize::MAX, busy_waits: 0, irq_waits: 0, resets: 0, rx_switch: 0, tx_switch: 0, switch_off: 0 } };
 pub(crate) fn iv() -> &'static mut IvLog {
-    unsafe { &mut *core::ptr::addr_of_mut!(IV) }
+    unsafe { &mut *core::ptr::addr_of_mut!(IV.v) }
 }
 pub(crate) struct MockIv;
 impl MockIv {
@@ -287,6 +339,40 @@ pub(crate) fn any_bw() -> Bandwidth {
 pub(crate) fn any_cr() -> CodingRate {
     let i: u8 = kani::any();
     kani::assume(i < 4);
+    match i {
+        0 => CodingRate::_4_5,
+        1 => CodingRate::_4_6,
+        2 => CodingRate::_4_7,
+        _ => CodingRate::_4_8,
+    }
+}
+pub(crate) fn sf_of(i: u32) -> SpreadingFactor {
+    match i {
+        0 => SpreadingFactor::_5,
+        1 => SpreadingFactor::_6,
+        2 => SpreadingFactor::_7,
+        3 => SpreadingFactor::_8,
+        4 => SpreadingFactor::_9,
+        5 => SpreadingFactor::_10,
+        6 => SpreadingFactor::_11,
+        _ => SpreadingFactor::_12,
+    }
+}
+pub(crate) fn bw_of(i: u32) -> Bandwidth {
+    match i {
+        0 => Bandwidth::_7KHz,
+        1 => Bandwidth::_10KHz,
+        2 => Bandwidth::_15KHz,
+        3 => Bandwidth::_20KHz,
+        4 => Bandwidth::_31KHz,
+        5 => Bandwidth::_41KHz,
+        6 => Bandwidth::_62KHz,
+        7 => Bandwidth::_125KHz,
+        8 => Bandwidth::_250KHz,
+        _ => Bandwidth::_500KHz,
+    }
+}
+pub(crate) fn cr_of(i: u32) -> CodingRate {
     match i {
         0 => CodingRate::_4_5,
         1 => CodingRate::_4_6,
